@@ -118,10 +118,12 @@ CHECKS = {
                             "population: <=NP jobs in pipeline p, <=NQ in q, <=1 in an undefined pipeline; every flag combination, Start nil or set",
                             "sort.Sort is executed from its real SSA (insertion sort for these sizes)"],
             "runs": [step("VerifC12Retention", {"NP": 2, "NQ": 0}, {"NP": 2, "NQ": 0}, reach=["removed", "full-population"], flags={"solver": "cvc5-int"}, replay="harness"),
-                     # three jobs in every state, without end instants (those are covered by the 2-job and the finished-only populations)
+                     step("VerifC12Retention", {"NP": 1, "NQ": 1}, {"NP": 1, "NQ": 1}, reach=["removed", "full-population"], flags={"solver": "cvc5-int"}, replay="harness"),
+                     step("VerifC12Retention", {"NP": 4, "NQ": 0, "finishedonly": 1}, {"NP": 4, "NQ": 0, "finishedonly": 1}, reach=["removed", "full-population"], flags={"solver": "cvc5-int"}, replay="harness"),
+                     # larger populations without end instants (end instants: the three runs above)
                      step("VerifC12Retention", {}, {"NP": 3, "NQ": 0, "noend": 1}, reach=["removed", "full-population"], flags={"solver": "cvc5-int"}, replay="harness", thorough_only=True),
-                     step("VerifC12Retention", {"NP": 1, "NQ": 1}, {"NP": 2, "NQ": 1}, reach=["removed", "full-population"], flags={"solver": "cvc5-int"}, replay="harness"),
-                     step("VerifC12Retention", {"NP": 4, "NQ": 0, "finishedonly": 1}, {"NP": 5, "NQ": 0, "finishedonly": 1}, reach=["removed", "full-population"], flags={"solver": "cvc5-int"}, replay="harness"), SELFTEST]},
+                     step("VerifC12Retention", {}, {"NP": 2, "NQ": 1, "noend": 1}, reach=["removed", "full-population"], flags={"solver": "cvc5-int"}, replay="harness", thorough_only=True),
+                     step("VerifC12Retention", {}, {"NP": 5, "NQ": 0, "finishedonly": 1, "noend": 1}, reach=["removed", "full-population"], flags={"solver": "cvc5-int"}, replay="harness", thorough_only=True), SELFTEST]},
     "C13": {"prefixes": ["C13."],
             "assumptions": ["lock discipline, not a whole-program race analysis: every access to memory reachable from the PipelineRunner must happen with r.mx held in the right mode",
                             "declared happens-before exceptions: the scheduler goroutine reads its own job's sched/ID; fields set once in NewPipelineRunner (store, outputStore, persistRequests, createTaskRunner) are immutable (writes are reported)",
